@@ -39,8 +39,10 @@ fn check(ctx: &mut Ctx, ty: &str, vals: &[u64], got: Result<Version, crate::obse
         ctx.violation(&format!("{}/{}/fields", ty, arity), w, format!("From<{}> gave {:?}, parse({:?}) gave {:?}", ty, got, text, parsed));
         return;
     }
-    if got.to_string() != text {
-        ctx.violation(&format!("{}/{}/display", ty, arity), w, format!("prints {:?}, expected {:?}", got.to_string(), text));
+    // the print is preceded by prints of another tuple-built version into writers that fail
+    let shown = crate::observe::print_after_failed_prints(&Version::from((7u8, 8, 9, 10)), &got);
+    if shown != text || got.to_string() != text {
+        ctx.violation(&format!("{}/{}/display", ty, arity), w, format!("prints {:?} (after failed prints of another version) / {:?}, expected {:?}", shown, got.to_string(), text));
         return;
     }
     if arity == 4 && got.pre_release != vec![Identifier::Numeric(vals[3])] {
